@@ -427,4 +427,11 @@ def holdsFont (E : Attr → Val) (info : Info) (env : Env) (ctx : Ctx) (obs : Ou
   holdsRows E ctx obs.fields && holdsDerived E info env ctx obs.fields && holdsNames E env obs.names &&
   holdsGeneratedPsName E info
 
+/-! ### a history of compiles on the same source objects -/
+
+/-- compiling (with or without variable-font overrides) leaves the caller's font info as it was: every attribute of the
+    source after the run is the attribute before it -/
+def holdsSourceUnchanged (before after : Info) : Bool :=
+  Attr.all.all (fun a => after a == before a)
+
 end Ufo2ft.C16
